@@ -445,7 +445,71 @@ Proof.
   rewrite G. cbn. tauto.
 Qed.
 
-Ltac gs := autorewrite with gs.
-Tactic Notation "gs" "in" hyp(H) := autorewrite with gs in H.
+
+(** the same lemmas once more, one rewriting base per setter: [gs] only tries the lemmas of the setters that occur in the goal *)
+#[export] Hint Rewrite rn_set_rname bn_set_rname br_set_rname cn_set_rname c0_set_rname c1_set_rname ckey_set_rname rname_set_rname bname_set_rname brock_set_rname bcn_set_rname cb0_set_rname cb1_set_rname rlist_set_rname rdict_set_rname blist_set_rname bdict_set_rname clist_set_rname cdict_set_rname next_set_rname : gs_set_rname.
+#[export] Hint Rewrite rn_set_bname bn_set_bname br_set_bname cn_set_bname c0_set_bname c1_set_bname ckey_set_bname rname_set_bname bname_set_bname brock_set_bname bcn_set_bname cb0_set_bname cb1_set_bname rlist_set_bname rdict_set_bname blist_set_bname bdict_set_bname clist_set_bname cdict_set_bname next_set_bname : gs_set_bname.
+#[export] Hint Rewrite rn_set_brock bn_set_brock br_set_brock cn_set_brock c0_set_brock c1_set_brock ckey_set_brock rname_set_brock bname_set_brock brock_set_brock bcn_set_brock cb0_set_brock cb1_set_brock rlist_set_brock rdict_set_brock blist_set_brock bdict_set_brock clist_set_brock cdict_set_brock next_set_brock : gs_set_brock.
+#[export] Hint Rewrite rn_set_bcn bn_set_bcn br_set_bcn cn_set_bcn c0_set_bcn c1_set_bcn ckey_set_bcn rname_set_bcn bname_set_bcn brock_set_bcn bcn_set_bcn cb0_set_bcn cb1_set_bcn rlist_set_bcn rdict_set_bcn blist_set_bcn bdict_set_bcn clist_set_bcn cdict_set_bcn next_set_bcn : gs_set_bcn.
+#[export] Hint Rewrite rn_set_cb0 bn_set_cb0 br_set_cb0 cn_set_cb0 c0_set_cb0 c1_set_cb0 ckey_set_cb0 rname_set_cb0 bname_set_cb0 brock_set_cb0 bcn_set_cb0 cb0_set_cb0 cb1_set_cb0 rlist_set_cb0 rdict_set_cb0 blist_set_cb0 bdict_set_cb0 clist_set_cb0 cdict_set_cb0 next_set_cb0 : gs_set_cb0.
+#[export] Hint Rewrite rn_set_cb1 bn_set_cb1 br_set_cb1 cn_set_cb1 c0_set_cb1 c1_set_cb1 ckey_set_cb1 rname_set_cb1 bname_set_cb1 brock_set_cb1 bcn_set_cb1 cb0_set_cb1 cb1_set_cb1 rlist_set_cb1 rdict_set_cb1 blist_set_cb1 bdict_set_cb1 clist_set_cb1 cdict_set_cb1 next_set_cb1 : gs_set_cb1.
+#[export] Hint Rewrite rn_set_rlist bn_set_rlist br_set_rlist cn_set_rlist c0_set_rlist c1_set_rlist ckey_set_rlist rname_set_rlist bname_set_rlist brock_set_rlist bcn_set_rlist cb0_set_rlist cb1_set_rlist rlist_set_rlist rdict_set_rlist blist_set_rlist bdict_set_rlist clist_set_rlist cdict_set_rlist next_set_rlist : gs_set_rlist.
+#[export] Hint Rewrite rn_set_rdict bn_set_rdict br_set_rdict cn_set_rdict c0_set_rdict c1_set_rdict ckey_set_rdict rname_set_rdict bname_set_rdict brock_set_rdict bcn_set_rdict cb0_set_rdict cb1_set_rdict rlist_set_rdict rdict_set_rdict blist_set_rdict bdict_set_rdict clist_set_rdict cdict_set_rdict next_set_rdict : gs_set_rdict.
+#[export] Hint Rewrite rn_set_blist bn_set_blist br_set_blist cn_set_blist c0_set_blist c1_set_blist ckey_set_blist rname_set_blist bname_set_blist brock_set_blist bcn_set_blist cb0_set_blist cb1_set_blist rlist_set_blist rdict_set_blist blist_set_blist bdict_set_blist clist_set_blist cdict_set_blist next_set_blist : gs_set_blist.
+#[export] Hint Rewrite rn_set_bdict bn_set_bdict br_set_bdict cn_set_bdict c0_set_bdict c1_set_bdict ckey_set_bdict rname_set_bdict bname_set_bdict brock_set_bdict bcn_set_bdict cb0_set_bdict cb1_set_bdict rlist_set_bdict rdict_set_bdict blist_set_bdict bdict_set_bdict clist_set_bdict cdict_set_bdict next_set_bdict : gs_set_bdict.
+#[export] Hint Rewrite rn_set_clist bn_set_clist br_set_clist cn_set_clist c0_set_clist c1_set_clist ckey_set_clist rname_set_clist bname_set_clist brock_set_clist bcn_set_clist cb0_set_clist cb1_set_clist rlist_set_clist rdict_set_clist blist_set_clist bdict_set_clist clist_set_clist cdict_set_clist next_set_clist : gs_set_clist.
+#[export] Hint Rewrite rn_set_cdict bn_set_cdict br_set_cdict cn_set_cdict c0_set_cdict c1_set_cdict ckey_set_cdict rname_set_cdict bname_set_cdict brock_set_cdict bcn_set_cdict cb0_set_cdict cb1_set_cdict rlist_set_cdict rdict_set_cdict blist_set_cdict bdict_set_cdict clist_set_cdict cdict_set_cdict next_set_cdict : gs_set_cdict.
+#[export] Hint Rewrite rn_set_next bn_set_next br_set_next cn_set_next c0_set_next c1_set_next ckey_set_next rname_set_next bname_set_next brock_set_next bcn_set_next cb0_set_next cb1_set_next rlist_set_next rdict_set_next blist_set_next bdict_set_next clist_set_next cdict_set_next next_set_next : gs_set_next.
+#[export] Hint Rewrite bn_new_rock br_new_rock cn_new_rock c0_new_rock c1_new_rock ckey_new_rock bname_new_rock brock_new_rock bcn_new_rock cb0_new_rock cb1_new_rock rlist_new_rock rdict_new_rock blist_new_rock bdict_new_rock clist_new_rock cdict_new_rock rn_new_rock next_new_rock : gs_new_rock.
+#[export] Hint Rewrite rn_new_block cn_new_block c0_new_block c1_new_block rname_new_block cb0_new_block cb1_new_block rlist_new_block rdict_new_block blist_new_block bdict_new_block clist_new_block cdict_new_block bn_new_block br_new_block next_new_block : gs_new_block.
+#[export] Hint Rewrite rn_new_conn bn_new_conn br_new_conn cn_new_conn rname_new_conn bname_new_conn brock_new_conn bcn_new_conn rlist_new_conn rdict_new_conn blist_new_conn bdict_new_conn clist_new_conn cdict_new_conn c0_new_conn c1_new_conn next_new_conn : gs_new_conn.
+#[export] Hint Rewrite rn_cn_add bn_cn_add br_cn_add c0_cn_add c1_cn_add ckey_cn_add rname_cn_add bname_cn_add brock_cn_add cb0_cn_add cb1_cn_add rlist_cn_add rdict_cn_add blist_cn_add bdict_cn_add clist_cn_add cdict_cn_add next_cn_add cn_cn_add : gs_cn_add.
+#[export] Hint Rewrite rn_file_block bn_file_block br_file_block cn_file_block c0_file_block c1_file_block ckey_file_block rname_file_block bname_file_block brock_file_block bcn_file_block cb0_file_block cb1_file_block rlist_file_block rdict_file_block blist_file_block clist_file_block cdict_file_block next_file_block bdict_file_block : gs_file_block.
+#[export] Hint Rewrite rn_rebuild_cdict bn_rebuild_cdict br_rebuild_cdict cn_rebuild_cdict c0_rebuild_cdict c1_rebuild_cdict ckey_rebuild_cdict rname_rebuild_cdict bname_rebuild_cdict brock_rebuild_cdict bcn_rebuild_cdict cb0_rebuild_cdict cb1_rebuild_cdict rlist_rebuild_cdict rdict_rebuild_cdict blist_rebuild_cdict bdict_rebuild_cdict clist_rebuild_cdict next_rebuild_cdict cdict_rebuild_cdict : gs_rebuild_cdict.
+
+Ltac gs_pass :=
+  try (lazymatch goal with |- context [set_rname _ _] => autorewrite with gs_set_rname end);
+  try (lazymatch goal with |- context [set_bname _ _] => autorewrite with gs_set_bname end);
+  try (lazymatch goal with |- context [set_brock _ _] => autorewrite with gs_set_brock end);
+  try (lazymatch goal with |- context [set_bcn _ _] => autorewrite with gs_set_bcn end);
+  try (lazymatch goal with |- context [set_cb0 _ _] => autorewrite with gs_set_cb0 end);
+  try (lazymatch goal with |- context [set_cb1 _ _] => autorewrite with gs_set_cb1 end);
+  try (lazymatch goal with |- context [set_rlist _ _] => autorewrite with gs_set_rlist end);
+  try (lazymatch goal with |- context [set_rdict _ _] => autorewrite with gs_set_rdict end);
+  try (lazymatch goal with |- context [set_blist _ _] => autorewrite with gs_set_blist end);
+  try (lazymatch goal with |- context [set_bdict _ _] => autorewrite with gs_set_bdict end);
+  try (lazymatch goal with |- context [set_clist _ _] => autorewrite with gs_set_clist end);
+  try (lazymatch goal with |- context [set_cdict _ _] => autorewrite with gs_set_cdict end);
+  try (lazymatch goal with |- context [set_next _ _] => autorewrite with gs_set_next end);
+  try (lazymatch goal with |- context [new_rock _ _] => autorewrite with gs_new_rock end);
+  try (lazymatch goal with |- context [new_block _ _ _] => autorewrite with gs_new_block end);
+  try (lazymatch goal with |- context [new_conn _ _ _] => autorewrite with gs_new_conn end);
+  try (lazymatch goal with |- context [cn_add _ _ _] => autorewrite with gs_cn_add end);
+  try (lazymatch goal with |- context [file_block _ _] => autorewrite with gs_file_block end);
+  try (lazymatch goal with |- context [rebuild_cdict _] => autorewrite with gs_rebuild_cdict end).
+Ltac gs := repeat (progress gs_pass).
+Ltac gs_pass_in H :=
+  try (lazymatch type of H with context [set_rname _ _] => autorewrite with gs_set_rname in H end);
+  try (lazymatch type of H with context [set_bname _ _] => autorewrite with gs_set_bname in H end);
+  try (lazymatch type of H with context [set_brock _ _] => autorewrite with gs_set_brock in H end);
+  try (lazymatch type of H with context [set_bcn _ _] => autorewrite with gs_set_bcn in H end);
+  try (lazymatch type of H with context [set_cb0 _ _] => autorewrite with gs_set_cb0 in H end);
+  try (lazymatch type of H with context [set_cb1 _ _] => autorewrite with gs_set_cb1 in H end);
+  try (lazymatch type of H with context [set_rlist _ _] => autorewrite with gs_set_rlist in H end);
+  try (lazymatch type of H with context [set_rdict _ _] => autorewrite with gs_set_rdict in H end);
+  try (lazymatch type of H with context [set_blist _ _] => autorewrite with gs_set_blist in H end);
+  try (lazymatch type of H with context [set_bdict _ _] => autorewrite with gs_set_bdict in H end);
+  try (lazymatch type of H with context [set_clist _ _] => autorewrite with gs_set_clist in H end);
+  try (lazymatch type of H with context [set_cdict _ _] => autorewrite with gs_set_cdict in H end);
+  try (lazymatch type of H with context [set_next _ _] => autorewrite with gs_set_next in H end);
+  try (lazymatch type of H with context [new_rock _ _] => autorewrite with gs_new_rock in H end);
+  try (lazymatch type of H with context [new_block _ _ _] => autorewrite with gs_new_block in H end);
+  try (lazymatch type of H with context [new_conn _ _ _] => autorewrite with gs_new_conn in H end);
+  try (lazymatch type of H with context [cn_add _ _ _] => autorewrite with gs_cn_add in H end);
+  try (lazymatch type of H with context [file_block _ _] => autorewrite with gs_file_block in H end);
+  try (lazymatch type of H with context [rebuild_cdict _] => autorewrite with gs_rebuild_cdict in H end).
+Ltac gs_in H := repeat (progress gs_pass_in H).
+Tactic Notation "gs" "in" hyp(H) := gs_in H.
 Tactic Notation "gs" "in" "*" := autorewrite with gs in *.
+
 
